@@ -6,7 +6,7 @@ func (discard) Write(p []byte) (int, error) { return len(p), nil }
 
 type nullLogger struct{}
 
-func (nullLogger) Printf(string, ...any) {}
+func (nullLogger) Printf(string, ...any)    {}
 func (nullLogger) Output(int, string) error { return nil }
 
 func trunc(s string, n int) string {
